@@ -30,7 +30,7 @@
    C18_table_consistent, C18_poll_reports, C18_new_slot_silent), and the two refutations of
    the pinned behaviour.  Implementation = model is tested (correspondence), not proved. *)
 From Coq Require Import ZArith List.
-From Tickit Require Import LoopDefs LoopSigDefs LoopSigProofs LoopSigIO LoopSigSpec LoopSigRefine LoopPipeDefs LoopPipeProofs.
+From Tickit Require Import LoopDefs LoopSigDefs LoopSigProofs LoopSigIO LoopSigSpec LoopSigRefine LoopSigSlots LoopPipeDefs LoopPipeProofs.
 Import ListNotations.
 Local Open Scope Z_scope.
 
@@ -42,14 +42,31 @@ Theorem C18_signal_reaches : forall env fuel ops s',
 Proof. exact signal_reaches. Qed.
 Print Assumptions C18_signal_reaches.
 
-(* an iteration whose ppoll was interrupted reaches dispatch_signals -- after the deferred
-   callbacks, whatever they did to errno -- with everything the handler recorded ... *)
+(* a pass of the loop (of tickit_tick, or any pass of tickit_run) whose ppoll was interrupted
+   reaches dispatch_signals -- after the deferred callbacks, whatever they did to errno AND
+   whether or not one of them called tickit_stop -- with everything the handler recorded ... *)
 Theorem C18_interrupted_iteration_dispatches : forall env fuel sleep s s2,
   ppoll (before_poll sleep s) = (-1, s2) ->
-  stick fixed_cfg env fuel sleep s = dispatch_signals fixed_cfg env fuel (invoke_laters fixed_cfg env s2) /\
+  iteration fixed_cfg env fuel sleep s = dispatch_signals fixed_cfg env fuel (invoke_laters fixed_cfg env s2) /\
   pending (invoke_laters fixed_cfg env s2) = pending s2.
-Proof. exact stick_interrupted. Qed.
+Proof. exact iteration_interrupted. Qed.
 Print Assumptions C18_interrupted_iteration_dispatches.
+
+(* the scripts of C18_signal_reaches / C18_refines include the action SStop (tickit_stop from any
+   callback) and the operation SRunLoop (tickit_run: passes until stopped).  The seeded loop
+   that leaves right after the deferred callbacks when one of them stopped it is refuted: the
+   signal that interrupted that very ppoll stays recorded and its watcher is never called *)
+Theorem C18_signal_reaches_refuted_stop_early :
+  exists s', srun_ops stop_early_cfg wstop_env 100 wstop_ops = Some s' /\ pending s' = [10] /\
+             forall e, In (OEv e) (slog s') -> e_kind e <> KSig.
+Proof. exact signal_reaches_refuted_stop_early. Qed.
+Print Assumptions C18_signal_reaches_refuted_stop_early.
+
+Theorem C18_stop_witness_fixed :
+  srun fixed_cfg wstop_env 100 wstop_ops =
+    Some [OPoll 0; OEv (mkE 1 KLater 3 1 0 0); OEv (mkE 0 KSig 1 1 0 10); OPoll 0; OPoll 0].
+Proof. exact stop_witness_fixed. Qed.
+Print Assumptions C18_stop_witness_fixed.
 
 (* the iteration model refines the snapshot specification: same log for every script and every
    ppoll outcome stream (SReady / SArrive / SRaise place the outcomes), with enough fuel *)
@@ -104,6 +121,30 @@ Theorem C18_all_watchers_invoked_passive : forall c env fuel s,
 Proof. exact dispatch_invokes_all. Qed.
 Print Assumptions C18_all_watchers_invoked_passive.
 
+(* ---- evloop_signal / evloop_cancel_signal: the table signums[] with slot reuse, the set
+   watched_signals, and the range of signal numbers dispatch_signals walks (LoopSigSlots.v).
+   After ANY history of registrations and cancellations watched_signals is exactly the set of
+   signals with a live watch (this is what the main model's is_watched assumes), and the walk
+   over 1 .. NSIG-1 hands every recorded signal that still has a watcher to the watchers *)
+Theorem C18_watched_signals_exact : forall ops sg, Forall gop_ok ops ->
+  (In sg (g_watched (g_run ops)) <-> exists w, In w (g_live (g_run ops)) /\ sw_sig w = sg).
+Proof. exact watched_spec. Qed.
+Print Assumptions C18_watched_signals_exact.
+
+Theorem C18_dispatch_covers : forall ops pending sg, Forall gop_ok ops -> 1 <= sg < NSIG -> In sg pending ->
+  (exists w, In w (g_live (g_run ops)) /\ sw_sig w = sg) -> In sg (dispatched false (g_run ops) pending).
+Proof. exact dispatch_covers. Qed.
+Print Assumptions C18_dispatch_covers.
+
+(* the seeded bound max_signum, raised where a slot is appended but not where one is reused:
+   SIGWINCH (28) first, a watch cancelled, then SIGSYS (31) into the freed slot -- watched,
+   recorded, never looked at *)
+Theorem C18_refuted_max_signum :
+  In 31 (g_watched (g_run wmax_ops)) /\ g_max (g_run wmax_ops) = 28 /\
+  dispatched true (g_run wmax_ops) [31] = [] /\ dispatched false (g_run wmax_ops) [31] = [31].
+Proof. exact max_signum_refuted. Qed.
+Print Assumptions C18_refuted_max_signum.
+
 (* a ppoll that reports no ready descriptor leaves nothing pending in the kernel *)
 Theorem C18_kernel_pending_delivered : forall s ret s1, ppoll s = (ret, s1) -> ret <= 0 -> kpend s1 = [].
 Proof. exact ppoll_delivers. Qed.
@@ -146,7 +187,7 @@ Print Assumptions C18_cancel_signal_gone.
    descriptors are non-negative (next theorem). *)
 Theorem C18_io_exact : forall env fuel sleep s s' ret s2, TW s ->
   ppoll (before_poll sleep s) = (ret, s2) -> 0 < ret ->
-  stick fixed_cfg env fuel sleep s = Some s' ->
+  iteration fixed_cfg env fuel sleep s = Some s' ->
   sext (io_exact s2 (ready s)) (invoke_laters fixed_cfg env s2) s'.
 Proof. exact io_exact_iteration. Qed.
 Print Assumptions C18_io_exact.
